@@ -326,14 +326,27 @@ func (j *join[T]) dump() CollectionDump {
 // nolint: unused // (not true)
 type joinIndexer[T any] struct {
 	indexers []indexer[T]
+	// join is set when overlapping keys must be resolved (checked mode)
+	join *join[T]
 }
 
 // nolint: unused // (not true)
 func (j joinIndexer[T]) Lookup(key string) []T {
 	var res []T
 	first := true
-	for _, i := range j.indexers {
+	for idx, i := range j.indexers {
 		l := i.Lookup(key)
+		if j.join != nil && idx > 0 {
+			// Same merging as List and GetKey: an object is shadowed when an earlier collection has its key.
+			l = slices.Filter(l, func(o T) bool {
+				for higher := range idx {
+					if j.join.getFromColIdx(higher, GetKey(o)) != nil {
+						return false
+					}
+				}
+				return true
+			})
+		}
 		if len(l) > 0 && first {
 			// Optimization: re-use the first returned slice
 			res = l
@@ -348,6 +361,9 @@ func (j joinIndexer[T]) Lookup(key string) []T {
 // nolint: unused // (not true, its to implement an interface)
 func (j *join[T]) index(name string, extract func(o T) []string) indexer[T] {
 	ji := joinIndexer[T]{indexers: make([]indexer[T], 0, len(j.collections))}
+	if !j.uncheckedOverlap {
+		ji.join = j
+	}
 	for _, c := range j.collections {
 		ji.indexers = append(ji.indexers, c.index(name, extract))
 	}
